@@ -80,6 +80,8 @@ def notify (ws : Nat → Waiter) (i : Nat) : Nat → Waiter :=
 
 inductive Ev where
   | acq (v i : Nat)          -- acquire script of holder v on key i (monitor i starts)
+  | acqErr (v i : Nat)       -- the acquire script of v on key i fails with a server/network error (timeout):
+                             -- the monitor starts with that error, runs delkey (the SET may have been applied) and ends
   | skip (v i : Nat)         -- key i is not attempted after an earlier ErrNotLocked (monitor starts and ends)
   | ret (v : Nat)            -- try returns the context to the caller
   | release (v : Nat)        -- the caller's cancel() / parent context done / failed try
@@ -88,6 +90,7 @@ inductive Ev where
   | force (v i : Nat)        -- ForceWithContext's script on key i
   | extdel (i : Nat)         -- another program deletes key i
   | expire (i : Nat)         -- key i expires
+  | extset (i x : Nat)       -- another program writes key i (foreign value x)
   | park (w i : Nat)         -- WithContext attempt of w was refused at key i; it waits on the gate
   | wake (w : Nat)           -- the waiter takes the gate token and tries again (as a fresh attempt)
 
@@ -101,6 +104,14 @@ def next (s : Sys) : Ev → Sys
       | (r, true) => { s with regs := upd s.regs i r,
                               hs := upd s.hs v { h with mons := upd h.mons i .running, acquired := h.acquired + 1 } }
       | (_, false) => setH s v (exitMon s.m s.n h i)
+    else s
+  | .acqErr v i =>
+    let h := s.hs v
+    if h.mons i = .idle ∧ i < s.n then
+      -- never acquired, but the monitor counts like any other when it leaves (`leaving`, `released`)
+      let r := delScript v (s.regs i)
+      { s with regs := upd s.regs i r.1, ws := if r.2 then notify s.ws i else s.ws,
+               hs := upd s.hs v (exitMon s.m s.n h i) }
     else s
   | .skip v i =>
     let h := s.hs v
@@ -137,6 +148,7 @@ def next (s : Sys) : Ev → Sys
     else s
   | .extdel i => { s with regs := upd s.regs i none, ws := if s.regs i = none then s.ws else notify s.ws i }
   | .expire i => { s with regs := upd s.regs i none, ws := if s.regs i = none then s.ws else notify s.ws i }
+  | .extset i x => { s with regs := upd s.regs i (some x), ws := notify s.ws i }
   | .park w i =>
     -- the refused attempt read key i (held by somebody) inside the script: tracked from now on;
     -- a token that is already in the channel stays there
@@ -155,9 +167,10 @@ def run (s : Sys) : List Ev → Sys
   | e :: r => run (next s e) r
 
 /-- the events of the property's hypothesis: nobody forces, keys do not expire (holders extend in
-time), nobody else deletes keys, extends do not fail with server errors -/
+time), nobody else deletes or writes keys, extends do not fail with server errors (an acquisition that
+fails with an error, `acqErr`, is allowed) -/
 def clean : Ev → Bool
-  | .force _ _ | .extdel _ | .expire _ | .monErr _ _ => false
+  | .force _ _ | .extdel _ | .expire _ | .monErr _ _ | .extset _ _ => false
   | _ => true
 
 /-- a holder whose lock context is live in the caller's hands -/
